@@ -72,7 +72,7 @@ func (w *World) accSite(t *Thread) string {
 
 // access records a plain (non-atomic) memory access and reports conflicting unordered pairs.
 func (w *World) access(t *Thread, p Ptr, write bool) {
-	if t == nil || p.o == nil || p.o.typ == nil {
+	if t == nil || p.o == nil || (p.o.typ == nil && p.o.label == "") {
 		return
 	}
 	// tracked memory: fields of the election / handler / monitor structs, and local variables of library
